@@ -305,7 +305,14 @@ def judge(case, r, peer, slack):
     fun, tim = [], []
     if r["rc"] is None:
         waiters = [(a, kd) for a, kd in case["hosts"] if kd in TEARDOWN_KINDS]
-        if waiters and case["ut"] > 0:
+        errl = r["stderr"].splitlines()
+        # the finding's signature only if the run looks like the finding: every SIGTERM-ignoring host has been
+        # reported as timed out under its name (pdsh got as far as the teardown), nothing but such hosts and healthy
+        # ones in the case
+        told = all(any(re.match(r"^pdsh@[^:]*: %s: \S" % re.escape(a), l) for l in errl)
+                   for a, kd in waiters if kd == "immortal")
+        pure = all(kd in TEARDOWN_KINDS + ("exec",) for _, kd in case["hosts"])
+        if waiters and case["ut"] > 0 and told and pure:
             fun.append(("real:no-return:teardown-waits-for-command",
                         "pdsh -u %d still runs after %.1f s (the timeouts plus the watchdog period allow %.1f s): %s; "
                         "the command timeout does not apply to the teardown (exec_destroy -> pipecmd_wait -> "
